@@ -9,6 +9,8 @@ mkdir -p target evidence replays
 if [ ! -d target/c20/w0 ]; then
   CARGO_TARGET_DIR=target/c20/w0 cargo build --offline -q --manifest-path smoke/Cargo.toml --no-default-features \
      --features v1_local,v2_local,v3_local,v4_local,v1_public,v2_public,v3_public,v4_public,batteries_included 2>/dev/null || true
+  CARGO_TARGET_DIR=target/c20/w0 cargo build --release --offline -q --manifest-path smoke/Cargo.toml --no-default-features \
+     --features v1_local,v2_local,v3_local,v4_local,v1_public,v2_public,v3_public,v4_public,batteries_included 2>/dev/null || true
 fi
 for i in $(seq 1 15); do
   [ -d target/c20/w$i ] || cp -r target/c20/w0 target/c20/w$i
@@ -16,5 +18,7 @@ done
 if [ -f harness/Cargo.toml ]; then
   RUSTFLAGS="--cfg rusty_paseto_verif -C target-cpu=native" CARGO_TARGET_DIR=target/harness \
     cargo build --release --offline -q --manifest-path harness/Cargo.toml || { echo "setup: harness build failed"; exit 1; }
+  RUSTFLAGS="--cfg rusty_paseto_verif -C target-cpu=native" CARGO_TARGET_DIR=target/harness \
+    cargo build --profile checked --offline -q --manifest-path harness/Cargo.toml || { echo "setup: harness (checked) build failed"; exit 1; }
 fi
 echo "setup ok"
